@@ -5,6 +5,7 @@ root = os.path.join(os.path.dirname(os.path.abspath(__file__)), "..")
 t = subprocess.check_output(["python3", os.path.join(root, "tools", "seed_table.py")], text=True)
 p = os.path.join(root, "DESIGN.md")
 s = open(p).read()
-s = re.sub(r"<!-- SEED-TABLE-BEGIN -->.*?<!-- SEED-TABLE-END -->", "<!-- SEED-TABLE-BEGIN -->\n" + t + "<!-- SEED-TABLE-END -->", s, flags=re.S)
+repl = "<!-- SEED-TABLE-BEGIN -->\n" + t + "<!-- SEED-TABLE-END -->"
+s = re.sub(r"<!-- SEED-TABLE-BEGIN -->.*?<!-- SEED-TABLE-END -->", lambda m: repl, s, flags=re.S)
 open(p, "w").write(s)
 print("table rows:", t.count("\n") - 2)
